@@ -945,6 +945,16 @@ class ExcelCompiler:
                 # calculated, note that there can be dependants to reset
                 cell.empty_result = cell.value is None
 
+                if not self.cycles:
+                    # ranges only used as a reference (ie: intersection) are
+                    # calculated as well, as set_value() does not look behind
+                    # the cells of a range which were never calculated
+                    for needed_addr in cell.needed_addresses:
+                        needed = needed_addr.is_range and self.cell_map.get(
+                            needed_addr.address)
+                        if needed and needed.value is None:
+                            self._evaluate_range(needed_addr.address)
+
         return cell.value
 
     def _evaluate_non_iterative(self, address):
